@@ -383,6 +383,8 @@ def _run_check(check, tier, seed, replay=None):
     model_broken = None
     if have_steps and os.path.exists(os.path.join(LEAN, '.lake', 'build', 'bin', 'walmodel')):
         try:
+            from . import session as _session
+            _session.COVER = bool(getattr(check, 'theorem_coverage', False))
             mres = check.model_obs([all_steps[i] for i in have_steps])
             for i, m in zip(have_steps, mres):
                 mobs_by_case[i] = m
@@ -494,6 +496,12 @@ def _run_check(check, tier, seed, replay=None):
             'input_distribution': hist, 'corpus_cases': n_corpus,
             'known_findings_reproduced': sorted(known_hits.keys()),
             'samples': samples[:5],
+            **({'theorem_coverage': dict(__import__('harness.session', fromlist=['x']).COVER_COUNTS,
+                                         note='per evaluation request of the correspondence run, asked of the model before the evaluation: does the restricted '
+                                              'evaluator of the global theorem complete on it (Bal.walEvalR for C17.toplevel_balanced, Opt.walEvalF for '
+                                              'C08.optimize_preserves_restricted)? If so the theorem speaks about exactly this evaluation of the model, '
+                                              'and the correspondence compares the model with the implementation on it.')}
+               if getattr(check, 'theorem_coverage', False) else {}),
         },
         'assumptions': list(check.assumptions),
         'wall_s': round(time.time() - t0, 2),
